@@ -180,6 +180,9 @@ type concState struct {
 	ev    int64
 	hists [][]HistOp
 	viol  *Violation
+	// ledger: each key has exactly one writer; bracket writes with the freelist
+	// ledger and check results sequentially per key
+	ledger bool
 }
 
 func (cs *concState) fail(class, format string, a ...any) {
@@ -214,7 +217,17 @@ func (cs *concState) client(ci int, ops []Op) {
 		}
 		cs.ev++
 		h := HistOp{Client: ci, Op: *op, Call: cs.ev}
-		h.Res = d.Call(op)
+		if cs.ledger && (op.K == "put" || op.K == "remove" || op.K == "reput") {
+			before, had := d.ledgerBefore(op)
+			h.Res = d.Call(op)
+			d.CheckSeq(op, h.Res)
+			d.ledgerAfter(op, before, had, h.Res)
+		} else if cs.ledger && op.K != "flush" {
+			h.Res = d.Call(op)
+			d.CheckSeq(op, h.Res)
+		} else {
+			h.Res = d.Call(op)
+		}
 		cs.ev++
 		h.Ret = cs.ev
 		h.Done = true
